@@ -31,7 +31,7 @@ COMPONENTS = {"real": ["FutureChain", "Future subclasses", "Exchange.__getitem__
               "harness": ["calendar-free lead model", "independent ledger"], "stub": []}
 PROBE_FLOORS = {"roll_executed": 122, "step_exactly_on_last_trading_instant": 50, "short_position_rolled": 55,
                 "month_offset_positive": 40, "roll_with_spread": 63, "expiry_passed_flat": 100, "explicit_contract_list": 31,
-                "foreign_clock_write": 31, "single_event_days_with_roll": 25, "roll_of_position_below_threshold": 25, "roll_of_position_worth_less_than_the_fee": 5}
+                "foreign_clock_write": 31, "single_event_days_with_roll": 25, "roll_of_position_below_threshold": 25, "roll_of_position_worth_less_than_the_fee": 5, "quotes_addressed_to_the_chain_across_a_roll": 15}
 
 
 def month_add(y, m, k):
@@ -124,6 +124,8 @@ def generate(rng, i, force=None):
     lead_only = rng.random() < 0.3
     if lead_only:
         two = False
+    # the traded contract's quotes are addressed to the chain itself (a continuous front-month price column)
+    chain_keyed = rng.random() < 0.25
     etf_px = 100.0
     prev_traded = None
     for g in grid:
@@ -138,7 +140,8 @@ def generate(rng, i, force=None):
             far = li is not None and j >= li + offset + 2
             if far and rng.random() < 0.2:
                 continue            # F1: quote gap for a far member
-            events.append({"t": core.iso(g), "type": "nbbo", "c": [0, lib_idx[j]], "bid": px[j] * (1 - spread / 2), "ask": px[j] * (1 + spread / 2), "id": len(events)})
+            events.append({"t": core.iso(g), "type": "nbbo", "c": [0, "chain"] if (chain_keyed and j == traded) else [0, lib_idx[j]],
+                           "bid": px[j] * (1 - spread / 2), "ask": px[j] * (1 + spread / 2), "id": len(events)})
         prev_traded = traded
         if two:
             etf_px *= 1 + rng.uniform(-0.01, 0.01)
@@ -193,7 +196,7 @@ def generate(rng, i, force=None):
             script.append({"op": "clock", "t": core.iso(rng.choice(grid))})
         script.append({"op": "step", "env": 0, "action": a})
     return {"kind": "epi", "envs": [env], "clock0": core.iso(grid[0]), "script": script, "prng": rng.randrange(2 ** 31),
-            "meta": {"cls": cls, "offset": offset, "style": style, "tod": tod, "explicit": explicit, "nmem": len(mem), "y0m0": [y0, m0], "lead_only": lead_only, "small": small}}
+            "meta": {"cls": cls, "offset": offset, "style": style, "tod": tod, "explicit": explicit, "nmem": len(mem), "y0m0": [y0, m0], "lead_only": lead_only, "small": small, "chain_keyed": chain_keyed}}
 
 
 def to_dt(x):
@@ -365,6 +368,8 @@ def execute(scenario):
         probe("single_event_days_with_roll")
     if scenario.get("meta", {}).get("explicit"):
         probe("explicit_contract_list")
+    if scenario.get("meta", {}).get("chain_keyed") and rolls:
+        probe("quotes_addressed_to_the_chain_across_a_roll")
     if sim.faults.get("foreign_clock_write"):
         probe("foreign_clock_write")
     m = scenario.get("meta", {})
